@@ -38,6 +38,3 @@ func Replay(path string) error {
 	}
 	return Fatal2("unknown engine %q in %s", h.Engine, path)
 }
-
-// SelfTest runs the determinism self-test.
-func SelfTest(args []string) error { return Fatal2("selftest: not built yet") }
